@@ -105,6 +105,21 @@ func iosxeTree() *cm.TreeDev {
 	return t
 }
 
+// junosTree: two sibling configuration levels with the same prompt and pattern. Which of them the device is
+// in can only be known from what the driver did before, so only histories (never forced states) use it.
+func junosTree() *cm.TreeDev {
+	t := &cm.TreeDev{Levels: map[string]*network.PrivilegeLevel{
+		"exec": {Name: "exec", Pattern: `(?im)^user@host>$`},
+		"configuration": {Name: "configuration", Pattern: `(?im)^user@host#$`, PreviousPriv: "exec",
+			Escalate: "configure", Deescalate: "exit configuration-mode"},
+		"configuration-exclusive": {Name: "configuration-exclusive", Pattern: `(?im)^user@host#$`, PreviousPriv: "exec",
+			Escalate: "configure exclusive", Deescalate: "exit configuration-mode"},
+	}, Prompts: map[string]string{"exec": "user@host>", "configuration": "user@host#", "configuration-exclusive": "user@host#"},
+		PwPrompt: map[string]string{}, Secret: cm.Secret,
+		Commands: map[string]string{"show x": "x out", "show y": "y out", "cfg1": "", "cfg2": ""}}
+	return t
+}
+
 func copyLevels(in map[string]*network.PrivilegeLevel) map[string]*network.PrivilegeLevel {
 	out := map[string]*network.PrivilegeLevel{}
 	for k, v := range in {
@@ -217,6 +232,11 @@ func runSession(w *sched.W, tag string, t *cm.TreeDev, root, desired string, sta
 					_, err = n.SendConfigs([]string{"cfg1", "cfg2"})
 				case "config":
 					_, err = n.SendConfig("cfg1\ncfg2")
+				case "configs-at":
+					_, err = n.SendConfigs([]string{"cfg1", "cfg2"}, opoptions.WithPrivilegeLevel(s.target))
+				case "configs-end":
+					// the last configuration line leaves configuration mode (as "end" / "commit and-quit" do)
+					_, err = n.SendConfigs([]string{"cfg1", t.Levels["configuration"].Deescalate})
 				case "interactive":
 					var o []util.Option
 					if s.target != desired || true {
@@ -267,6 +287,18 @@ func runSession(w *sched.W, tag string, t *cm.TreeDev, root, desired string, sta
 					target, own = desired, []string{"show x", "show y"}
 				case "configs", "config":
 					target, own = "configuration", []string{"cfg1", "cfg2"}
+				case "configs-at":
+					own = []string{"cfg1", "cfg2"}
+				case "configs-end":
+					if errs[i] != nil {
+						vio("c04:operation-failed", "step %d %s from %s: %v", i, s, mode, errs[i])
+						return
+					}
+					want = append(want, t.Path(mode, "configuration")...)
+					want = append(want, "cfg1", t.Levels["configuration"].Deescalate)
+					wantModes = append(wantModes, lm{"cfg1", "configuration"})
+					mode = t.Levels["configuration"].PreviousPriv
+					continue
 				case "interactive":
 					if target == "" {
 						target = desired
@@ -349,8 +381,15 @@ func seqScenario(treeName string, t *cm.TreeDev, root, desired string, first ste
 		sort.Strings(levels)
 		alphabet := []step{{"command", ""}, {"commands", ""}, {"configs", ""}, {"config", ""}, {"nope", "nope"}, {"interactive", ""}}
 		for _, l := range levels {
-			alphabet = append(alphabet, step{"acquire", l}, step{"interactive", l}, step{"stalled", l})
+			alphabet = append(alphabet, step{"acquire", l}, step{"interactive", l})
+			if treeName != "junos" {
+				// after an interrupted hop only the prompt can tell the level: not with ambiguous prompts
+				alphabet = append(alphabet, step{"stalled", l})
+			} else {
+				alphabet = append(alphabet, step{"configs-at", l})
+			}
 		}
+		alphabet = append(alphabet, step{"configs-end", ""})
 		seq := []step{first}
 		var rec func()
 		rec = func() {
@@ -404,7 +443,7 @@ func scenarios(tier string) []sched.Scenario {
 		name          string
 		t             *cm.TreeDev
 		root, desired string
-	}{{"iosxe", ios, "exec", "privilege-exec"}, {"iosxe", ios, "exec", "exec"}, {"Y", y, "n0", "n1"}, {"Y", y, "n0", "n4"}} {
+	}{{"iosxe", ios, "exec", "privilege-exec"}, {"iosxe", ios, "exec", "exec"}, {"Y", y, "n0", "n1"}, {"Y", y, "n0", "n4"}, {"junos", junosTree(), "exec", "exec"}} {
 		var levels []string
 		for l := range tr.t.Levels {
 			levels = append(levels, l)
@@ -425,8 +464,8 @@ func TestCheck(t *testing.T) {
 	sched.Main(t, sched.Check{
 		ID:          "C04",
 		Level:       "model_checking",
-		Rule:        "trees: every rooted unlabelled shape with <=5 nodes (17) x every subset of authenticated edges (n<=4); for each every ordered (current, target) pair x driver cache {correct, UNKNOWN, stale} with the device forced into `current`, whole-buffer and 1-byte reads (+ every single extra cut/hold; every two for n<=4 in thorough); histories: every sequence of <=3 (4 thorough) operations over {SendCommand, SendCommands, SendConfigs, SendConfig, AcquirePriv(each level), AcquirePriv(unknown), SendInteractive(default / at each level)} on the IOS-XE 4-level tree (authenticated enable, not-contains disambiguation) and a 5-node Y tree, two default levels each; device model = one mode per level that objects to anything but its own transitions; oracle = unique tree path, final level, level at which each line arrived",
-		Assumptions: []string{"levels have pairwise distinguishable prompts (so Go map iteration order cannot change the result)", "the secondary secret is configured whenever an edge is authenticated"},
+		Rule:        "trees: every rooted unlabelled shape with <=5 nodes (17) x every subset of authenticated edges (n<=4); for each every ordered (current, target) pair x driver cache {correct, UNKNOWN, stale} with the device forced into `current`, whole-buffer and 1-byte reads (+ every single extra cut/hold; every two for n<=4 in thorough); histories: every sequence of <=3 (4 thorough) operations over {SendCommand, SendCommands, SendConfigs, SendConfig, AcquirePriv(each level), AcquirePriv(unknown), SendInteractive(default / at each level)} incl. config lines that leave configuration mode, configs at an explicit level and hops answered after the timeout, on the IOS-XE 4-level tree (authenticated enable, not-contains disambiguation), a 5-node Y tree (two default levels each) and a Junos-like tree with two same-prompt configuration levels; device model = one mode per level that objects to anything but its own transitions; oracle = unique tree path, final level, level at which each line arrived",
+		Assumptions: []string{"levels have pairwise distinguishable prompts (so Go map iteration order cannot change the result), except in the Junos-like history tree whose two configuration levels share one prompt: there the device is only ever moved by the driver and no hop is interrupted", "the secondary secret is configured whenever an edge is authenticated"},
 		Scenarios:   scenarios,
 		Budget:      map[string]time.Duration{"quick": 5 * time.Minute, "thorough": 40 * time.Minute},
 	})
